@@ -23,7 +23,18 @@ type seqApp struct {
 func newSeqApp(split bool) *seqApp {
 	s := &seqApp{}
 	s.app = fiber.New(fiber.Config{EnableSplittingOnParsers: split, ReadBufferSize: 1 << 16})
-	s.app.All("/t", func(c fiber.Ctx) error { return s.cur.handler(c) })
+	s.app.Use(func(c fiber.Ctx) error {
+		if s.cur.viaMW {
+			c.Bind().WithAutoHandling()
+		}
+		return c.Next()
+	})
+	s.app.All("/t", func(c fiber.Ctx) error {
+		if s.cur.multi != nil {
+			return s.cur.multiHandler(c)
+		}
+		return s.cur.handler(c)
+	})
 	s.d = drive.NewDirect(s.app)
 	return s
 }
